@@ -9,7 +9,7 @@
    Continuation gathering, `;` splitting and what the readers do with the text are covered by the
    metamorphic oracle of harness/props/c13.py only.  Strength: partial. *)
 From Coq Require Import String.
-From FV Require Import Base.Str Base.Lines Base.LinesFacts Base.Regex Base.RegexFacts Gen.GenRegex C13.Model C13.Proofs.
+From FV Require Import Base.Str Base.Lines Base.LinesFacts Base.Regex Base.RegexFacts Gen.GenRegex C13.Model C13.Proofs C13.Cont.
 
 (* LF, CRLF and CR renderings of the same lines are split into the same lines *)
 Theorem terminators : forall ls,
@@ -72,6 +72,18 @@ Theorem mixed_quotes_blanked :
   blank_spans P_STRING (s2l """it's"" // 'a!b'; integer :: zz") = [(0, 6); (10, 15)].
 Proof. vm_compute. reflexivity. Qed.
 Print Assumptions mixed_quotes_blanked.
+
+(* splitting a statement over `&` continuation lines, with or without a leading `&`, with blank, comment and preprocessor
+   lines in between: for every statement cut into any number of pieces (no piece containing & ! # or a character literal)
+   the text handed to the statement readers equals the statement, up to blanks *)
+Theorem continuation_lines_preserve_statement p rest :
+  Forall (fun q => wf_piece q = true) (p :: rest) -> amp_lead p = false ->
+  match render (p :: rest) with
+  | cur :: more => squeeze (joined cur more) = squeeze (concat (map body (p :: rest)))
+  | [] => False
+  end.
+Proof. exact (continuation_layout_irrelevant p rest). Qed.
+Print Assumptions continuation_lines_preserve_statement.
 
 Example C13_nonvacuous :
   let ls := [s2l "program p"; []; s2l "  x = 1 "; s2l "end"] in
